@@ -20,7 +20,8 @@ KNOWN = os.path.join(VERIF, 'KNOWN_FINDINGS.txt')
 HOOK_GUARD = 'BINLOG_VERIF'
 
 ALLOWED_AXIOMS = {'propext', 'Quot.sound', 'Classical.choice'}
-CXXFLAGS = ['-std=c++17', '-O1', '-g', '-fsanitize=address,undefined', '-fno-sanitize-recover=all',
+CXXFLAGS = ['-std=c++17', '-O1', '-g', '-fsanitize=address,undefined', '-fno-sanitize-recover=all', '-fwrapv',
+            '-fno-sanitize=signed-integer-overflow',
             '-UNDEBUG', '-D' + HOOK_GUARD, '-I' + os.path.join(REPO, 'include'), '-I' + os.path.join(REPO, 'bin')]
 
 TRUSTED_BASE = [
@@ -89,7 +90,8 @@ def build_repo_objects(flags=None, tag='asan'):
     """compile the repo's library .cpp files (from the CURRENT working tree); cache by content hash"""
     flags = flags or CXXFLAGS
     rh = repo_hash()
-    objdir = os.path.join(BUILD, 'obj-%s-%s' % (tag, rh))
+    fh = hashlib.sha256(' '.join(flags).encode()).hexdigest()[:8]
+    objdir = os.path.join(BUILD, 'obj-%s-%s-%s' % (tag, rh, fh))
     os.makedirs(objdir, exist_ok=True)
     jobs = []
     for src in lib_cpp_files():
@@ -338,11 +340,29 @@ class Ctx:
         return 0
 
 
+def run_extract(ctx):
+    """regenerate lean/BinlogVerif/Generated/*.lean from /repo's working tree; returns False if the
+    extractor no longer recognises the sources (a broken tie)"""
+    rc, out = sh([sys.executable, os.path.join(VERIF, 'tools', 'extract.py')])
+    ctx.coverage['extraction'] = out.strip()[-3000:]
+    if rc != 0:
+        ctx.extract_failure = out.strip()[-2000:]
+        return False
+    ctx.extract_failure = None
+    return True
+
+
 def proof_step(ctx, module, theorems, extra_targets=None):
     """Build the property module and audit it.  Returns True iff every obligation is discharged.
     On failure nothing is reported yet: the caller runs the counterexample search first."""
     ctx.obligations = list(theorems)
-    targets = [module, 'driver'] + (extra_targets or [])
+    if not run_extract(ctx):
+        ctx.proof_failure = 'tools/extract.py no longer recognises the sources: ' + ctx.extract_failure
+        ctx.proof_log = ctx.extract_failure
+        # still build what can be built, so that the correspondence and the search can run
+        lake_build(['driver'])
+        return False
+    targets = [module, 'driver', 'BinlogVerif.Generated.Consts'] + (extra_targets or [])
     ok, log = lake_build(targets)
     ctx.coverage['lake_build_ok'] = ok
     if not ok:
